@@ -23,9 +23,12 @@
   partial_cmp(..).unwrap() in sort_active_edges    mNaN        UNREACHABLE for scalar types without NaN (`NoNaN`)
   assert!(is_after(intersection, current))         mAssert     UNREACHABLE when `y < next_after(y)` (`NextUpOk`:
                                                                every finite f32 and -inf; ordered fields)
-  sort_active_edges fix-up loop: idx - 1           mSub        *** REACHABLE on finite input, also on the real
-                                                               FillTessellator: findings.d/C01.json
-                                                               C01-sort-active-edges-merge-underflow ***
+  sort_active_edges fix-up loop: idx - 1           (mSub)      WAS reachable on finite input, also on the real
+                                                               FillTessellator (finding C01-sort-active-edges-
+                                                               merge-underflow).  FIXED in lyon 747d7f78: the
+                                                               loop returns Err(Internal(MergeVertexOutside));
+                                                               the model mirrors it, the site is no panic any
+                                                               more and `mSub` left every residue list
   spans[i] (vertex events, spans_to_end, split)    mSpanIdx    not proved: needs span/winding coherence
   begin_span(i) in process_edges_below/split_event mSpanIns    not proved: same
   split event: active.edges[above_start] (right)   mEdgeIdx    not proved: needs total winding of the
@@ -48,26 +51,29 @@
   * `coherence_after_event` if the winding is conserved at the vertex (`EventOkW`: the winding number
                             right of the new edges = the winding number right of the edges that ended;
                             no stray vertex) the new state is coherent again;
-  * `sweep_no_panic_clean_partial` a run whose EXECUTABLE certificate `cleanB` evaluates to `true`
-                            (no scan error, i.e. no recovery, and `EventOkW` at every event - both read
-                            off the run itself) does not panic.  On 8 400 recovery-free finite cases of the
-                            check's stream the certificate was `true` in every single one; it is `false`
-                            exactly on the runs that go through `recover_from_error` (and on non-finite
-                            input).  `_partial`: winding conservation is a property of the pointer-level
-                            event queue (every edge that starts at a vertex is in its sibling list, every
-                            edge that ends there is active) and is NOT proved for all inputs - it is the
-                            hypothesis, checkable per run; runs with a scan error are not covered (that
-                            is where the reachable panic lives).
+  * `sweep_no_panic_certified` (EVERY scalar type, f32 included, no hypothesis) a run whose EXECUTABLE
+                            certificate `cleanB` (`Model/Tess/SweepCert.lean`) evaluates to `true` can only
+                            panic on the assertion or the NaN sort key.  The certificate replays the run and
+                            checks, at every event: the scan result passes `scanAgreeB` (what the proofs
+                            need of `HorizAgree`), the winding is conserved (`eventOkB`); after every
+                            `recover_from_error`: the state is coherent (`cohB`) - so runs through the
+                            recovery are covered too.  The C01 check evaluates it on EVERY explored case
+                            (family `sweepcert:32`: `cert ok` = not finite, or certificate true).
+  * `sweep_no_panic_clean_partial` the same with `NextUpOk`, `NoNaN`: no panic at all;
+                            `sweep_no_panic_clean_field_partial` over every ordered field.  `_partial`:
+                            the certificate is a hypothesis about the run; winding conservation (a property
+                            of the pointer-level event queue) and the coherence after a recovery are
+                            checked per run, NOT proved for all inputs.
 
   Theorems:
   * `sweep_no_structural_panic`  (all scalar types, no hypothesis) a run never ends in `mDead` or
                                  `mBelowIdx`; precisely: a panic message is one of the seven others;
   * `sweep_no_panic_partial`     (`NoNaN`, `NextUpOk`, `HorizAgree`) a panic message is one of
-                                 `mSpanIdx, mSpanIns, mEdgeIdx, mSub`;
+                                 `mSpanIdx, mSpanIns, mEdgeIdx`;
   * `sweep_no_panic_field_partial` the same over every linearly ordered field (hypotheses discharged);
   * the `*_sites` theorems: per step function, the exact list of panic messages it can end in - from
     which the table above is read off (e.g. `mEdgeIdx` can only come out of `process_edges_below`,
-    i.e. the split event; `mSub` only out of `recover_from_error`);
+    i.e. the split event; `recover_from_error` can only panic on a NaN sort key);
   * `sweep_impl_…`, `sweep_curves_…`: the same for `tessellate_impl` on any queue / curved input.
 -/
 import LyonVerif.Lemmas.SweepSafeField
@@ -87,21 +93,21 @@ section allScalars
 variable {α : Type} [Scalar α] [Wide α]
 
 /-- the panic messages not excluded for an arbitrary scalar type -/
-def structuralResidue : List String := [mSpanIdx, mSpanIns, mEdgeIdx, mSub, mNaN, mAssert, mSplice]
+def structuralResidue : List String := [mSpanIdx, mSpanIns, mEdgeIdx, mNaN, mAssert, mSplice]
 
 /-- the panic messages not excluded for a NaN-free scalar type with `y < next_after(y)` and agreeing
 on-edge tests -/
-def semanticResidue : List String := [mSpanIdx, mSpanIns, mEdgeIdx, mSub]
+def semanticResidue : List String := [mSpanIdx, mSpanIns, mEdgeIdx]
 
 theorem covers_structural (t : α) : Covers t structuralResidue :=
   ⟨by simp [structuralResidue], by simp [structuralResidue], by simp [structuralResidue],
-   by simp [structuralResidue], Or.inr (by simp [structuralResidue]), Or.inr (by simp [structuralResidue]),
+   Or.inr (by simp [structuralResidue]), Or.inr (by simp [structuralResidue]),
    Or.inr (by simp [structuralResidue])⟩
 
 theorem covers_semantic (t : α) (hNaN : NoNaN α) (hUp : NextUpOk α) (hH : HorizAgree t) :
     Covers t semanticResidue :=
   ⟨by simp [semanticResidue], by simp [semanticResidue], by simp [semanticResidue],
-   by simp [semanticResidue], Or.inl hNaN, Or.inl hUp, Or.inl hH⟩
+   Or.inl hNaN, Or.inl hUp, Or.inl hH⟩
 
 /-- **No structural panic, every scalar type.**  Whatever the input and the options, the modelled
 `FillTessellator` never ends in "dead span" or "edge below index out of range": if it panics, the
@@ -132,11 +138,12 @@ theorem sweep_curves_no_structural_panic [Transc α] [FlatConst α] (mode : Swee
     · cases h
     · exact List.mem_cons_of_mem _ (sweep_impl_no_structural_panic _ _ _ _ _ w h)
 
-/-- **No panic but four messages**, for a scalar type without NaN, with `y < next_after(y)` and with
-agreeing on-edge tests.  `_partial`: of the four, `mSub` (the fix-up loop of `sort_active_edges`
-running off the front of the active list) IS reachable on finite input - a genuine defect of lyon,
-finding `C01-sort-active-edges-merge-underflow`; `mSpanIdx`, `mSpanIns`, `mEdgeIdx` (right neighbour
-of a split vertex) need the span/winding coherence of the sweep state, which is not proved. -/
+/-- **No panic but three messages**, for a scalar type without NaN, with `y < next_after(y)` and with
+agreeing on-edge tests.  `_partial`: `mSpanIdx`, `mSpanIns`, `mEdgeIdx` (right neighbour of a split
+vertex) need the span/winding coherence of the sweep state, which is proved only for runs with a
+clean certificate (`sweep_no_panic_clean_partial`).  (The fourth message of the first version,
+`mSub` of the fix-up loop of `sort_active_edges`, was a genuine defect of lyon - finding
+`C01-sort-active-edges-merge-underflow` - and is gone since fix 747d7f78.) -/
 theorem sweep_no_panic_partial (hNaN : NoNaN α) (hUp : NextUpOk α) (entry : Entry) (rule : Slab.Rule)
     (horizontal : Bool) (tol : α) (hH : HorizAgree (tol * half)) (handleIx : Bool) (subs : List (SubPath α))
     (w : String) (h : (tessellate entry rule horizontal tol handleIx subs).1 = some (.panic w)) :
@@ -183,21 +190,23 @@ theorem update_active_edges_no_panic (hUp : NextUpOk α) (tol : α) (hH : HorizA
     ⦃safePost [] fun _ s => Safe tol s⦄ :=
   updateActiveEdges_safeS (Or.inl hUp) (Or.inl hH) scan
 
-/-- `process_events`: never `mSub`, never `mNaN` -/
+/-- `process_events`: never an integer underflow, never `mNaN` -/
 theorem process_events_sites (tol : α) :
     ⦃fun s => ⌜Safe tol s⌝⦄ (processEvents : SM α (Option IErr))
     ⦃safePost [mSpanIdx, mSpanIns, mEdgeIdx, mAssert, mSplice] fun _ s => Safe tol s⦄ :=
   processEvents_safe (by simp) (by simp) (by simp) (Or.inr (by simp)) (Or.inr (by simp))
 
-/-- `recover_from_error`: the only panics are the fix-up loop's underflow and the NaN key; its
-`begin_span` and `pop` calls are safe -/
+/-- `recover_from_error`: the only panic is the NaN sort key; its `begin_span` and `pop` calls are
+safe, and the fix-up loop of `sort_active_edges` ends in `Err(MergeVertexOutside)` instead of
+underflowing (lyon 747d7f78) -/
 theorem recover_sites (tol : α) :
-    ⦃fun s => ⌜Safe tol s⌝⦄ (recoverFromError : SM α Unit) ⦃safePost [mSub, mNaN] fun _ s => Safe tol s⦄ :=
-  recoverFromError_safe (by simp) (Or.inr (by simp))
+    ⦃fun s => ⌜Safe tol s⌝⦄ (recoverFromError : SM α Unit) ⦃safePost [mNaN] fun _ s => Safe tol s⦄ :=
+  recoverFromError_safe (Or.inr (by simp))
 
+/-- ... and without NaN `recover_from_error` never panics -/
 theorem recover_sites_no_nan (hNaN : NoNaN α) (tol : α) :
-    ⦃fun s => ⌜Safe tol s⌝⦄ (recoverFromError : SM α Unit) ⦃safePost [mSub] fun _ s => Safe tol s⦄ :=
-  recoverFromError_safe (by simp) (Or.inl hNaN)
+    ⦃fun s => ⌜Safe tol s⌝⦄ (recoverFromError : SM α Unit) ⦃safePost [] fun _ s => Safe tol s⦄ :=
+  recoverFromError_safe (Or.inl hNaN)
 
 /-- the assertion of `process_intersection` cannot fail when `y < next_after(y)`: with an in-range
 edge index `process_intersection` never fails -/
@@ -218,35 +227,58 @@ variable {α : Type} [Scalar α] [Wide α]
 theorem scan_winding_spec (s : St α) (scan : Scan) (h : scanActiveEdges s = .ok scan) :
     ScanOk s scan ∧ ScanSem s scan := of_scan_both h
 
-/-- **the invariant after an event with conserved winding** -/
+/-- **the invariant after an event with conserved winding**.  `ScanAgree` (a merge event consumed an
+edge; a vertex in the filled region that connects to nothing is a split event) follows from
+`HorizAgree` (`scanAgree_of_horiz`) and is decidable on the scan result (`scanAgreeB`). -/
 theorem coherence_after_event {s0 s' : St α} {scan : Scan} {W : List Int} (hok : ScanOk s0 scan)
-    (hsem : ScanSem s0 scan) (hc : Coh s0) (hH : HorizAgree s0.tolerance) (hev : EventOkW s0 scan W)
-    (hN : NewSt s0 scan (Zf s0 scan W) W s') : Coh s' := coh_after hok hsem hc hH hev hN
+    (hsem : ScanSem s0 scan) (hc : Coh s0) (hG : ScanAgree s0 scan) (hev : EventOkW s0 scan W)
+    (hN : NewSt s0 scan (Zf s0 scan W) W s') : Coh s' := coh_after hok hsem hc hG hev hN
 
 /-- **`process_events` on a coherent state**: the only panic it can reach is the assertion (none when
 `y < next_after(y)`); afterwards the state is the scanned state with the above-range replaced by the
 pending edges (`EvPost`), whatever the winding balance -/
 theorem process_events_coherent (hUp : NextUpOk α) (s1 : St α) (hc : Coh s1) (hH : HorizAgree s1.tolerance) :
     ⦃fun s => ⌜s = s1⌝⦄ (processEvents : SM α (Option IErr)) ⦃safePost [] fun r s' => EvPost s1 r s'⦄ :=
-  processEvents_coh_at s1 hc hH (Or.inl hUp)
+  processEvents_coh_at s1 hc (fun scan h => scanAgree_of_horiz (of_scan_both h).1 (of_scan_both h).2 hH)
+    (Or.inl hUp)
 
-/-- **A run with a clean certificate does not panic** (every scalar type with `y < next_after(y)` and
-agreeing on-edge tests).  `cleanB` is executable: it replays the loop and checks, at every event, that
-the scan succeeded and that the winding is conserved (`eventOkB`).  `_partial`: see the header. -/
-theorem sweep_no_panic_clean_partial (hUp : NextUpOk α) (entry : Entry) (rule : Slab.Rule) (horizontal : Bool)
-    (tol : α) (hH : HorizAgree (tol * half)) (handleIx : Bool) (subs : List (SubPath α))
+/-- **A certified run can only panic on the assertion or on a NaN sort key - for EVERY scalar type**,
+`f32` included, without any hypothesis: `cleanB` (executable, `Model/Tess/SweepCert.lean`) replays
+the run and checks at every event that the scan result passes `scanAgreeB` and that the winding is
+conserved (`eventOkB`), and after every `recover_from_error` that the state is coherent (`cohB`).
+The C01 check evaluates it on every explored case (family `sweepcert:32`). -/
+theorem sweep_no_panic_certified (entry : Entry) (rule : Slab.Rule) (horizontal : Bool)
+    (tol : α) (handleIx : Bool) (subs : List (SubPath α))
+    (hB : cleanB entry rule horizontal tol handleIx subs = true) (w : String)
+    (h : (tessellate entry rule horizontal tol handleIx subs).1 = some (.panic w)) :
+    w ∈ [mAssert, mNaN] :=
+  tessellate_clean (A := [mAssert, mNaN]) entry rule horizontal tol handleIx subs (Or.inr (by simp))
+    (Or.inr (by simp)) hB _ h w rfl
+
+theorem sweep_impl_no_panic_certified (q : Queue α) (rule : Slab.Rule) (horizontal : Bool)
+    (tol : α) (handleIx : Bool) (hB : cleanRunB q rule horizontal tol handleIx = true) (w : String)
+    (h : (tessellateImpl q rule horizontal tol handleIx).1 = some (.panic w)) : w ∈ [mAssert, mNaN] :=
+  tessellateImpl_clean (A := [mAssert, mNaN]) q rule horizontal tol handleIx (Or.inr (by simp))
+    (Or.inr (by simp)) hB _ h w rfl
+
+/-- **A run with a clean certificate does not panic** (scalar types with `y < next_after(y)` and
+without NaN).  `_partial`: the certificate is a hypothesis about the run, not proved for all inputs
+(winding conservation is a property of the pointer-level event queue; the coherence of the state
+after a recovery is checked, not proved) - see the header. -/
+theorem sweep_no_panic_clean_partial (hUp : NextUpOk α) (hNaN : NoNaN α) (entry : Entry) (rule : Slab.Rule)
+    (horizontal : Bool) (tol : α) (handleIx : Bool) (subs : List (SubPath α))
     (hB : cleanB entry rule horizontal tol handleIx subs = true) (w : String) :
     (tessellate entry rule horizontal tol handleIx subs).1 ≠ some (.panic w) := by
   intro h
-  have := tessellate_clean (A := []) entry rule horizontal tol handleIx subs hH (Or.inl hUp) hB _ h w rfl
+  have := tessellate_clean (A := []) entry rule horizontal tol handleIx subs (Or.inl hUp) (Or.inl hNaN) hB _ h w rfl
   cases this
 
-theorem sweep_impl_no_panic_clean_partial (hUp : NextUpOk α) (q : Queue α) (rule : Slab.Rule) (horizontal : Bool)
-    (tol : α) (hH : HorizAgree (tol * half)) (handleIx : Bool)
+theorem sweep_impl_no_panic_clean_partial (hUp : NextUpOk α) (hNaN : NoNaN α) (q : Queue α) (rule : Slab.Rule)
+    (horizontal : Bool) (tol : α) (handleIx : Bool)
     (hB : cleanRunB q rule horizontal tol handleIx = true) (w : String) :
     (tessellateImpl q rule horizontal tol handleIx).1 ≠ some (.panic w) := by
   intro h
-  have := tessellateImpl_clean (A := []) q rule horizontal tol handleIx hH (Or.inl hUp) hB _ h w rfl
+  have := tessellateImpl_clean (A := []) q rule horizontal tol handleIx (Or.inl hUp) (Or.inl hNaN) hB _ h w rfl
   cases this
 
 end coherence
@@ -291,15 +323,12 @@ theorem sweep_no_panic_field_partial (fmin eps : K) (sqrt : K → K) (entry : En
 
 /-- the clean-run theorem over every linearly ordered field -/
 theorem sweep_no_panic_clean_field_partial (fmin eps : K) (sqrt : K → K) (entry : Entry) (rule : Slab.Rule)
-    (horizontal : Bool) (tol : K) (htol : 0 ≤ tol) (handleIx : Bool) (subs : List (SubPath K))
+    (horizontal : Bool) (tol : K) (handleIx : Bool) (subs : List (SubPath K))
     (hB : @cleanB K _ (exactWide fmin eps sqrt) entry rule horizontal tol handleIx subs = true) (w : String) :
     (@tessellate K _ (exactWide fmin eps sqrt) entry rule horizontal tol handleIx subs).1 ≠ some (.panic w) := by
   let _ := exactWide fmin eps sqrt
-  refine sweep_no_panic_clean_partial (nextUpOk_exact fmin eps sqrt) entry rule horizontal tol ?_ handleIx subs hB w
-  apply horizAgree_field
-  show (0 : K) ≤ tol * (Scalar.ofSci 5 1)
-  rw [sc_half]
-  positivity
+  exact sweep_no_panic_clean_partial (nextUpOk_exact fmin eps sqrt) (noNaN_exact fmin eps sqrt) entry rule
+    horizontal tol handleIx subs hB w
 
 end field
 
@@ -334,8 +363,8 @@ theorem horizAgree_Z (t : Z) (ht : 0 ≤ t.v) : HorizAgree (α := Z) t := by
   show (0 : Int) ≤ (if t.v ≤ _ then _ else t).v
   split <;> omega
 
-/-- non-vacuity of `sweep_no_panic_clean_partial`: the certificate of the triangle `(1,0) (0,2) (3,3)`
-evaluates to `true` in the kernel, and the other hypotheses hold on `Z` -/
+/-- non-vacuity of `sweep_no_panic_certified` / `sweep_no_panic_clean_partial`: the certificate of the
+triangle `(1,0) (0,2) (3,3)` evaluates to `true` in the kernel -/
 example :
     cleanB (α := Z) .path .nonZero false ⟨1⟩ true [([pz 1 0, pz 0 2, pz 3 3], true)] = true := by
   decide +kernel
